@@ -66,14 +66,108 @@ def _has_lit(lits, pred, pol):
     return any(pl == pol and pred(t) for t, pl in lits)
 
 
-def _single_return_expr(fn):
-    """Body expression of a lambda, or the returned expression of a def with one return."""
+def _straight_return(fn):
+    """Body expression of a lambda, or the expression a straight-line def returns: its body (docstring and no-ops aside)
+    is one return, possibly preceded by assignments to temporaries each of which is read exactly once, namely as the
+    returned value or as the operand of a returned `not` (`_ret = f(x); return _ret` reads `return f(x)`).
+    None when the body has any other shape."""
     if isinstance(fn, ast.Lambda):
         return fn.body
+    body = A.body_wo_doc(fn)
     rets = [r for r in A.walk_local(fn, include_self=False) if isinstance(r, ast.Return)]
-    if len(rets) == 1 and len(A.body_wo_doc(fn)) == 1:
-        return rets[0].value
+    if len(rets) != 1 or not body or body[-1] is not rets[0]:
+        return None
+    params = set(A.func_params(fn))
+    env = {}
+    for st in body[:-1]:
+        if not (isinstance(st, ast.Assign) and len(st.targets) == 1 and isinstance(st.targets[0], ast.Name)):
+            return None
+        nm = st.targets[0].id
+        if nm in env or nm in params:
+            return None
+        env[nm] = st.value
+    for nm in env:
+        loads = [n for n in A.walk_local(fn, include_self=False) if isinstance(n, ast.Name) and n.id == nm and isinstance(n.ctx, ast.Load)]
+        if len(loads) != 1:
+            return None
+    used = set()
+
+    def deref(e):
+        while isinstance(e, ast.Name) and e.id in env and e.id not in used:
+            used.add(e.id)
+            e = env[e.id]
+        return e
+    v = deref(rets[0].value)
+    if isinstance(v, ast.UnaryOp) and isinstance(v.op, ast.Not):
+        inner = deref(v.operand)
+        if inner is not v.operand:
+            v = ast.UnaryOp(op=ast.Not(), operand=inner)
+    if used != set(env):
+        return None
+    return v
+
+
+def _single_return_expr(fn):
+    """Body expression of a lambda, or the returned expression of a def with one return."""
+    return _straight_return(fn)
+
+
+def _value_at(p, expr, upto=None):
+    """What *expr* evaluates at event *upto* of path p (default: its end): a local Name is read through its last plain
+    assignment on the path (`_ret = f(x); return _ret`), unless the name is also bound in another way before that point."""
+    seen = set()
+    while isinstance(expr, ast.Name) and expr.id not in seen:
+        seen.add(expr.id)
+        last = None
+        for i, e in enumerate(p.ev if upto is None else p.ev[:upto]):
+            node = e[1]
+            if e[0] == "stmt" and isinstance(node, ast.Assign) and len(node.targets) == 1 and isinstance(node.targets[0], ast.Name) \
+                    and node.targets[0].id == expr.id:
+                last = (i, node)
+                continue
+            bound = []
+            if e[0] in ("stmt", "partial", "iter", "with"):
+                bound = [nm for t in A.assigned_targets(node) for nm in A.target_names(t)]
+            elif e[0] == "def":
+                bound = [node.name]
+            elif e[0] == "exc":
+                bound = [node.name]
+            if expr.id in bound:
+                last = None
+        if last is None:
+            return expr
+        expr, upto = last[1].value, last[0]
+    return expr
+
+
+def _one_armed_if(stmts):
+    """(test, arm) when the statement list is (no-ops aside) one `if` that does something in one arm only: `if T: A`
+    gives (T, A); `if not T: pass else: A` gives (T, A) as well; `if T: pass else: A` gives (not T, A).  Else None."""
+    real = [st for st in stmts if not A.is_noop_stmt(st)]
+    if len(real) != 1 or not isinstance(real[0], ast.If):
+        return None
+    iff = real[0]
+    idle = lambda arm: all(A.is_noop_stmt(st) for st in arm)
+    if idle(iff.orelse) and not idle(iff.body):
+        return iff.test, iff.body
+    if idle(iff.body) and not idle(iff.orelse):
+        if isinstance(iff.test, ast.UnaryOp) and isinstance(iff.test.op, ast.Not):
+            return iff.test.operand, iff.orelse
+        return ast.UnaryOp(op=ast.Not(), operand=iff.test), iff.orelse
     return None
+
+
+def _last_return(p):
+    return [s for s in p.stmts() if isinstance(s, ast.Return)][-1]
+
+
+def _canon(expr):
+    """The expression re-parsed from its canonical spelling (A.norm_src): for *shape* tests only -- the copy has no
+    links into the module, names in it cannot be resolved."""
+    try:
+        return ast.parse(A.norm_src(expr), mode="eval").body
+    except SyntaxError:   # pragma: no cover
+        return expr
 
 
 def _callable_value(init, value):
@@ -164,10 +258,9 @@ def reducer_of(ctx, cls_target):
     if call is None:
         return None, None
     ps = [p for p in A.func_params(call) if p != "self"]
-    body = A.body_wo_doc(call)
-    if len(ps) != 1 or len(body) != 1 or not isinstance(body[0], ast.Return) or not isinstance(body[0].value, ast.Call):
+    c = _straight_return(call)
+    if len(ps) != 1 or not isinstance(c, ast.Call):
         return None, call
-    c = body[0].value
     canon = res.call_canon(c)
     if canon not in ("builtins.any", "builtins.all") or len(c.args) != 1 or not isinstance(c.args[0], (ast.GeneratorExp, ast.ListComp)):
         return None, call
@@ -339,11 +432,10 @@ def check_dispatch(ctx):
     # Not
     ncall = ctx.tree.func(SEL, "Not.__call__")
     nps = [p for p in A.func_params(ncall) if p != "self"]
-    body = A.body_wo_doc(ncall)
+    nret = _straight_return(ncall)
     ok = False
-    if len(body) == 1 and isinstance(body[0], ast.Return) and isinstance(body[0].value, ast.UnaryOp) \
-            and isinstance(body[0].value.op, ast.Not):
-        c = body[0].value.operand
+    if isinstance(nret, ast.UnaryOp) and isinstance(nret.op, ast.Not):
+        c = nret.operand
         ok = isinstance(c, ast.Call) and isinstance(c.func, ast.Attribute) and c.func.attr == "__call__" \
             and isinstance(c.func.value, ast.Call) and A.call_name(c.func.value) == "super" \
             and len(c.args) == 1 and A.src(c.args[0]) == nps[0]
@@ -392,8 +484,9 @@ def check_contained_call(ctx, qual, callee_src, what):
             ok = _has_lit(lits, flag, True)
             why = "the exception is re-raised on a path that does not test _raise_on_error"
         elif p.end == "return":
-            r = [s for s in p.stmts() if isinstance(s, ast.Return)][-1]
-            ok = _has_lit(lits, flag, False) and r.value is not None and A.is_const(r.value, False)
+            r = _last_return(p)
+            rv = _value_at(p, r.value) if r.value is not None else None
+            ok = _has_lit(lits, flag, False) and rv is not None and A.is_const(rv, False)
             why = ("the handler returns `%s` %s: with raise_on_error=False an exception in a leaf must count as not selected "
                    "(False), and with raise_on_error=True it must propagate"
                    % (A.src(r.value) if r.value is not None else "None",
@@ -420,16 +513,11 @@ def check_containment(ctx):
     for p in P.paths_of(fn):
         if p.end != "return" or any(e[0] == "exc" for e in p.ev):
             continue
-        r = [s for s in p.stmts() if isinstance(s, ast.Return)][-1]
-        v = r.value
+        r = _last_return(p)
+        v = _value_at(p, r.value) if r.value is not None else None
         if isinstance(v, ast.Call) and res.call_canon(v) == "builtins.bool" and len(v.args) == 1:
-            v = v.args[0]
-        ok = False
-        if isinstance(v, ast.Call) and v in calls:
-            ok = True
-        elif isinstance(v, ast.Name):
-            defs = [s for s in p.stmts() if isinstance(s, ast.Assign) and any(isinstance(t, ast.Name) and t.id == v.id for t in s.targets)]
-            ok = bool(defs) and defs[-1].value in calls
+            v = _value_at(p, v.args[0])
+        ok = isinstance(v, ast.Call) and v in calls
         ctx.check("C15-b", ok, r, "Selector.__call__ returns `%s`, not the result of the wrapped selector" % A.short(r, 60),
                   detail="the normal result is the selector's result", construct="leaf-result:" + A.short(r, 50), path=p)
     # SelectContext
@@ -459,8 +547,8 @@ def check_containment(ctx):
                      "sub-context raises instead of giving False", detail="lookup enclosed by except LenaKeyError", construct="lookup-handler"):
             for h in hs[:1]:
                 hp = P.paths_through(h.body)
-                ok = bool(hp) and all(q.end == "return" and [s for s in q.stmts() if isinstance(s, ast.Return)][-1].value is not None
-                                      and A.is_const([s for s in q.stmts() if isinstance(s, ast.Return)][-1].value, False) for q in hp)
+                ok = bool(hp) and all(q.end == "return" and _last_return(q).value is not None
+                                      and A.is_const(_value_at(q, _last_return(q).value), False) for q in hp)
                 ctx.check("C15-b", ok, h, "the handler of the missing sub-context does not return False on every path",
                           detail="absent sub-context -> False", construct="lookup-absent")
         # the predicate receives the looked-up object
@@ -535,20 +623,19 @@ def check_filter(ctx):
     run = ctx.tree.func(F, "Filter.run")
     fi = ctx.tree.func(F, "Filter.fill_into")
     test_run = fwd = var = None
-    rets = [r for r in A.walk_local(run) if isinstance(r, ast.Return) and isinstance(r.value, ast.GeneratorExp)]
+    g = _straight_return(run) if not A.is_generator(run) else None
     flow = [p for p in A.func_params(run) if p != "self"][0]
-    if rets:
-        g = rets[0].value
+    if isinstance(g, ast.GeneratorExp):
         if len(g.generators) == 1 and len(g.generators[0].ifs) == 1 and isinstance(g.generators[0].target, ast.Name) \
                 and A.src(g.generators[0].iter) == flow:
             var, test_run, fwd = g.generators[0].target.id, g.generators[0].ifs[0], g.elt
     else:
         loops = [l for l in A.body_wo_doc(run) if isinstance(l, ast.For) and A.src(l.iter) == flow and isinstance(l.target, ast.Name)]
-        if len(loops) == 1 and len(A.body_wo_doc(run)) == 1 and len(loops[0].body) == 1 and isinstance(loops[0].body[0], ast.If) \
-                and not loops[0].body[0].orelse:
+        if len(loops) == 1 and len(A.body_wo_doc(run)) == 1 and not loops[0].orelse:
+            br = _one_armed_if(loops[0].body)
             ys = [y for y in A.walk_body(loops[0].body) if isinstance(y, ast.Yield)]
-            if len(ys) == 1:
-                var, test_run, fwd = loops[0].target.id, loops[0].body[0].test, ys[0].value
+            if br is not None and len(ys) == 1 and any(isinstance(st, ast.Expr) and st.value is ys[0] for st in br[1]):
+                var, test_run, fwd = loops[0].target.id, br[0], ys[0].value
     if ctx.require(test_run is not None, "C15-c", run, "Filter.run: unrecognised shape"):
         ctx.check("C15-c", A.src(test_run) == "self._selector(%s)" % var, run, "Filter.run keeps a value when `%s`, not when the "
                   "selector selects it" % A.src(test_run), detail="Filter.run tests self._selector(value)", construct="filter-run-test")
@@ -558,10 +645,13 @@ def check_filter(ctx):
     body = A.body_wo_doc(fi)
     if ctx.require(len(fps) == 2 and len(body) == 1 and isinstance(body[0], ast.If), "C15-c", fi, "Filter.fill_into: unrecognised shape"):
         iff = body[0]
-        ctx.check("C15-c", A.src(iff.test) == "self._selector(%s)" % fps[1] and not iff.orelse, iff,
+        # `if T: A` and `if not T: pass else: A` are the same statement: read the test with its polarity
+        br = _one_armed_if(body)
+        test, arm = br if br is not None else (iff.test, iff.body)
+        ctx.check("C15-c", A.src(test) == "self._selector(%s)" % fps[1] and br is not None, iff,
                   "Filter.fill_into fills when `%s`, not when the selector selects the value" % A.src(iff.test),
                   detail="Filter.fill_into tests self._selector(value)", construct="filter-fill-test")
-        fills = [c for s in iff.body for c in ast.walk(s) if isinstance(c, ast.Call) and isinstance(c.func, ast.Attribute) and c.func.attr == "fill"]
+        fills = [c for s in arm for c in ast.walk(s) if isinstance(c, ast.Call) and isinstance(c.func, ast.Attribute) and c.func.attr == "fill"]
         ctx.check("C15-c", len(fills) == 1 and A.src(fills[0]) == "%s.fill(%s)" % (fps[0], fps[1]), iff,
                   "Filter.fill_into does not fill exactly the selected value itself (%s)" % "; ".join(A.src(c) for c in fills),
                   detail="Filter.fill_into fills the value itself", construct="filter-fill-forward")
@@ -763,15 +853,25 @@ def check_group_by(ctx):
         ctx.check("C15-d", isinstance(par, ast.Assign) and any(A.is_self_attr(t, "_iet") for t in par.targets), c,
                   "the tree is not stored as self._iet", detail="self._iet = the tree", construct="init-iet")
     # the default arguments put everything into one group: merge takes the root
+    def is_empty(t, name):
+        """+1 for `name == ''` (either way round), -1 for `name != ''`, 0 otherwise."""
+        if A.same(t, "%s == ''" % name):
+            return 1
+        if A.same(t, "%s != ''" % name):
+            return -1
+        return 0
+    n_dflt = 0
     for p in P.paths_of(init):
-        both = [pol for t, pol in p.literals() if isinstance(t, ast.Compare) and A.src(t) in ('%s == ""' % ips[0], "%s == ''" % ips[0])]
-        both2 = [pol for t, pol in p.literals() if isinstance(t, ast.Compare) and A.src(t) in ('%s == ""' % ips[1], "%s == ''" % ips[1])]
+        both = [pol == (is_empty(t, ips[0]) > 0) for t, pol in p.literals() if isinstance(t, ast.Compare) and is_empty(t, ips[0])]
+        both2 = [pol == (is_empty(t, ips[1]) > 0) for t, pol in p.literals() if isinstance(t, ast.Compare) and is_empty(t, ips[1])]
         if both == [True] and both2 == [True] and p.end != "raise":
+            n_dflt += 1
             g = [s for s in p.stmts() if isinstance(s, ast.Assign) and any(A.src(t) == ips[0] for t in s.targets)]
             m = [s for s in p.stmts() if isinstance(s, ast.Assign) and any(A.src(t) == ips[1] for t in s.targets)]
             ok = len(g) == 1 and A.src(g[0].value) in ("tuple()", "()") and len(m) == 1 and A.src(m[0].value) in ("('',)", '("",)')
             ctx.check("C15-d", ok, init, "GroupBy() with default arguments does not use group_by=(), merge=('',)",
                       detail="defaults: everything merged into one group", construct="init-defaults", path=p)
+    ctx.instances_floor("C15-d/defaults", n_dflt, 1, "normal paths of GroupBy.__init__ on which both arguments are the default ''")
     comp = ctx.tree.func(GB, "GroupBy.compute")
     loops = [l for l in A.walk_local(comp) if isinstance(l, ast.For)]
     ok = len(loops) == 1 and A.src(loops[0].iter) in ("self.groups.values()",) and len(loops[0].body) == 1 \
@@ -917,6 +1017,9 @@ def _walk_prov(p, res, inc, exc, upto=None):
             for t in e[1].targets:
                 if isinstance(t, ast.Name):
                     env[t.id] = pr
+        elif e[0] == "stmt" and isinstance(e[1], ast.AugAssign) and isinstance(e[1].target, ast.Name):
+            # `x += e` is `x = x + e`
+            env[e[1].target.id] = env.get(e[1].target.id, frozenset()) | _prov(e[1].value, env, res)
         elif e[0] == "iter" and isinstance(e[1], ast.For):
             it, tg = e[1].iter, e[1].target
             pr = _prov(it, env, res)
@@ -1007,15 +1110,16 @@ def check_provenance(ctx):
                               detail="level loop iterates %s when default-include=%s" % (sorted(pl), mode[-1]),
                               construct="level-table:%s" % mode[-1], path=p)
         if p.end == "return":
-            r = [s for s in p.stmts() if isinstance(s, ast.Return)][-1]
-            if isinstance(r.value, ast.Call) and res.call_canon(r.value) == IET + ".IncludeExcludeTree":
+            r = _last_return(p)
+            rv = _value_at(p, r.value) if r.value is not None else None
+            if isinstance(rv, ast.Call) and res.call_canon(rv) == IET + ".IncludeExcludeTree":
                 n_ret += 1
                 cls_init = ctx.tree.func(IET, "IncludeExcludeTree.__init__")
                 cf = [x for x in A.func_params(cls_init) if x != "self"]
                 bound = {}
-                for j, a in enumerate(r.value.args):
+                for j, a in enumerate(rv.args):
                     bound[cf[j]] = a
-                for k in r.value.keywords:
+                for k in rv.keywords:
                     bound[k.arg] = k.value
                 ctx.check("C15-f", bound.get("include") is not None and A.src(bound["include"]) == dflt, r,
                           "the tree is created with include=%s, not with the default it was asked for"
@@ -1065,19 +1169,30 @@ def check_provenance(ctx):
                     ok = isinstance(b, (ast.ListComp, ast.GeneratorExp)) and isinstance(b.elt, ast.Call) \
                         and res.call_canon(b.elt) == IET + "._split_key" and len(b.generators) == 1 \
                         and A.src(b.elt.args[0]) == A.src(b.generators[0].target) \
-                        and [A.src(x) for x in b.generators[0].ifs] in (["%s != ''" % A.src(b.generators[0].target)],
-                                                                         ["%s != \"\"" % A.src(b.generators[0].target)])
+                        and len(b.generators[0].ifs) == 1 and A.same(b.generators[0].ifs[0], "%s != ''" % A.src(b.generators[0].target))
                     ctx.check("C15-f", ok, c, "the root %s are not `[_split_key(key) for key in %s if key != '']`" % (nm, nm),
                               detail="root %s: every non-root key, split" % nm, construct="root-split:" + nm, path=p)
     ctx.instances_floor("C15-f/root", n_root, 1, "root constructions")
-    raises = [r for r in A.walk_local(root) if isinstance(r, ast.Raise)]
+    # a raise of LenaValueError whose innermost deciding condition is `<count> != 1` (however the test is spelled:
+    # `1 != <count>`, or the other arm of `<count> == 1`)
     ok = False
-    for r in raises:
-        iff = A.enclosing(r, ast.If)
-        if r.exc is not None and res.canon(r.exc.func if isinstance(r.exc, ast.Call) else r.exc) == EXC + "LenaValueError" and iff is not None:
-            t = iff.test
-            if isinstance(t, ast.Compare) and len(t.ops) == 1 and isinstance(t.ops[0], ast.NotEq) and A.is_const(t.comparators[0], 1):
-                ok = True
+    for p in P.paths_of(root):
+        if p.end != "raise":
+            continue
+        r = [s for s in p.stmts() if isinstance(s, ast.Raise)][-1]
+        if r.exc is None or res.canon(r.exc.func if isinstance(r.exc, ast.Call) else r.exc) != EXC + "LenaValueError":
+            continue
+        conds = [e for e in p.ev[:p.index(r)] if e[0] == "cond"]
+        if not conds:
+            continue
+        lits = A.literals(conds[-1][1], conds[-1][2])
+        if len(lits) != 1:
+            continue
+        t, pol = lits[0]
+        t = _canon(t)
+        if isinstance(t, ast.Compare) and len(t.ops) == 1 and A.is_const(t.comparators[0], 1) \
+                and isinstance(t.ops[0], ast.NotEq if pol else ast.Eq):
+            ok = True
     ctx.check("C15-f", ok, root, "a root ('') listed in both or neither of includes/excludes is no longer rejected with LenaValueError",
               detail="root in exactly one set, else LenaValueError", construct="root-check")
     # _group_by_starting_prefixes: head / tail split
@@ -1093,11 +1208,12 @@ def _tests_empty_tail(test, outcome):
     """Does the branch (test, outcome) assert 'some tail is empty'?  True / False / None (not recognised)."""
     t, pol = A.strip_not(test)
     outcome = outcome if pol else (not outcome)
+    t = _canon(t)       # a constant operand on the right: `0 == min(...)` reads `min(...) == 0`
     s = A.src(t)
     # min(len(x) for x in tails) == 0
     if isinstance(t, ast.Compare) and len(t.ops) == 1 and isinstance(t.left, ast.Call) and A.call_name(t.left) == "min" \
             and A.is_const(t.comparators[0], 0) and "len(" in s:
-        if isinstance(t.ops[0], ast.Eq):
+        if isinstance(t.ops[0], (ast.Eq, ast.LtE)):
             return outcome
         if isinstance(t.ops[0], (ast.NotEq, ast.Gt)):
             return not outcome
